@@ -329,9 +329,28 @@ func c12Run(e *core.Env) {
 		}
 	}
 	rj(0)
+	if e.Take() {
+		// prices declared in the root file, positions in two included files: the valued
+		// report under every loader schedule equals the single-file one (validated against
+		// the mark-to-market reference)
+		drv := e.Driver()
+		root, a, b := multiFileJournal()
+		body := append(append(append([]jr.Dir(nil), root[len(opensPrefix()):]...), a...), b...)
+		for _, v := range []string{"CHF", "USD"} {
+			cfg := ref.BalCfg{Valuation: v}
+			if key, detail, _, _ := c03One(drv, body, cfg); key != "" {
+				e.Violation("C12:"+strings.TrimPrefix(key, "C03:"), detail, balCase{body, cfg}, nil)
+				continue
+			}
+			multiFileSchedules(e, drv, "C12", "balance-v-"+v, root, a, b, []string{"balance", "--color=false", "--digits", "8", "-v", v, "root.knut"})
+		}
+	}
 }
 
 func c12Replay(e *core.Env, data json.RawMessage) (bool, string) {
+	if h, v, d := replayMultiFile(e, data); h {
+		return v, d
+	}
 	var cs c12Case
 	if err := json.Unmarshal(data, &cs); err != nil {
 		return false, err.Error()
